@@ -231,6 +231,8 @@ def run(ck):
     narrowing_len_sweep(ck, crate("rs", "concordium_base"), re.compile(r"concordium_base::sigma_protocols::"), re.compile(r"(verify|extract_commit_message)[a-z_0-9]*(::\{closure#\d+\})*$"))
 
     geometric_weight_sweep(ck, crate("rs", "concordium_base"), re.compile(r"concordium_base::(sigma_protocols|elgamal)::"), floor=2)
+    from .c12 import enctrans_sibling_rule
+    enctrans_sibling_rule(ck)
     eq_polarity_sweep(ck, crate("rs", "concordium_base"), re.compile(r"concordium_base::sigma_protocols::"), re.compile(r"(verify|extract_commit_message)[a-z_0-9]*(::\{closure#\d+\})*$"))
     rejecting_checks_floor(ck, crate("rs", "concordium_base"), re.compile(r"concordium_base::sigma_protocols::"), re.compile(r"(verify|verifier|validate|check|extract_commit_message)[a-z_0-9]*(::\{closure#\d+\})*$"), "C07")
 
